@@ -90,6 +90,9 @@ func runC16(cfg *vh.Config) error {
 		if i >= 5 && i < 10 {
 			forcedClash = i - 5 // one package of each known-finding class in every run
 		}
+		if i == 10 {
+			forcedClash = 60 // non-ASCII identifiers
+		}
 		p := genPackage(rp, i >= nPkg)
 		pks = append(pks, pk{p: p})
 		jobs = append(jobs, &Job{ID: len(jobs), Kind: "j5s", Pkg: p.Pkg, Files: map[string]string{strings.ReplaceAll(p.Pkg, ".", "/") + "/a.j5s": p.text()}})
@@ -180,6 +183,8 @@ func runC16(cfg *vh.Config) error {
 				switch {
 				case p.Clash == "case" && strings.Contains(bad.Msg, "camel-case name"):
 					sig = "C16 valid package with enum options that differ only in case (Active, ACTIVE) -> stage image err: camel-case name conflict of enum values"
+				case p.Clash == "unicode" && (strings.Contains(bad.Msg, "invalid character") || strings.Contains(bad.Msg, "invalid") && strings.Contains(bad.Msg, "name")):
+					sig = "C16 valid package with a non-ASCII letter in a schema / property name (object \u00c9lan, field na\u00efve) -> stage " + bad.Name + " err: the compiled names are not protobuf identifiers"
 				case p.Clash == "enumdefault" && strings.Contains(bad.Msg, "unknown enum value"):
 					sig = "C16 valid package with an enum field whose listRules.filtering.defaultFilters names no option -> stage " + bad.Name + " err: unknown enum value (buildListRequest)"
 				case p.Clash == "split" && (strings.Contains(bad.Msg, "is used by an enum and by a message or oneof") ||
@@ -198,6 +203,10 @@ func runC16(cfg *vh.Config) error {
 
 		// ---- correspondence case
 		if r.Img == nil || r.status("source") == "none" {
+			continue
+		}
+		if p.Clash == "unicode" {
+			res.Count(stream + ":non-ASCII identifier package (direct oracle only)")
 			continue
 		}
 		if p.Clash == "split" {
